@@ -26,6 +26,14 @@ pub enum Reg {
 }
 
 impl Reg {
+    /// how often the parent holds the child under the unit message (add_child files it there)
+    fn unit_entries(self) -> usize {
+        match self {
+            Reg::Add | Reg::AddTy(_) => 1,
+            Reg::AddTwice => 2,
+            Reg::Ty(_) | Reg::Both => 0,
+        }
+    }
     fn receives(self, ty: u8) -> bool {
         match self {
             Reg::Add | Reg::AddTwice => false,
@@ -311,7 +319,23 @@ impl Scene for S {
         // (send_to_children is C16's own subject: a scene borrowed by another property only
         // reports the lifetime clauses)
         let none: Vec<(u8, u32)> = vec![];
-        for (ty, id) in (if pid == "C16" || pid == "C06" { &self.bcasts } else { &none }).iter().chain(goodbye.iter()) {
+        // unit broadcasts (type 0) reach the children held with add_child, once per entry
+        if pid == "C16" && self.bcasts.iter().any(|b| b.0 == 0) && t.res.end == crate::vexec::EndReason::Quiescent {
+            let sent = self.bcasts.iter().filter(|(ty, id)| *ty == 0 && an.exit_of_msg(0, *id).is_some()).count();
+            for n in self.nodes.iter().filter(|n| n.parent == Some(0) && !n.outside_stops) {
+                crate::check::oblige("broadcast-delivered");
+                let got = an.enters.iter().filter(|e| e.a == n.role && e.cb == Cb::Unit).count();
+                let want = sent * n.reg.unit_entries();
+                if got != want {
+                    out.push(Violation {
+                        clause: "broadcast-exactly-once-to-registered",
+                        key: format!("{pid}/unit-broadcast-count/got={}/want={}", got.min(3), want.min(3)),
+                        detail: format!("{sent} unit broadcast(s): child {} (registered {:?}) handled {got}, expected {want}", n.role, n.reg),
+                    });
+                }
+            }
+        }
+        for (ty, id) in (if pid == "C16" || pid == "C06" { &self.bcasts } else { &none }).iter().filter(|b| b.0 != 0).chain(goodbye.iter()) {
             let delivered_by_root = an.exit_of_msg(0, *id).is_some() || goodbye == Some((*ty, *id));
             for n in self.nodes.iter().filter(|n| n.parent.is_some()) {
                 let got = an.enters.iter().filter(|e| e.a == n.role && e.cb == (Cb::Bcast { ty: *ty, id: *id })).count();
@@ -417,6 +441,21 @@ fn base_cases(tier: Tier) -> Vec<Case> {
         trees.push(vec![root, n(1, 0, Reg::Ty(1), false), n(2, 0, Reg::Ty(1), false), n(3, 1, Reg::Ty(1), false), n(4, 1, Reg::Add, true), n(5, 2, Reg::Ty(2), false)]);
     }
     let bsets: Vec<Vec<(u8, u32)>> = vec![vec![], vec![(1, 601)], vec![(1, 601), (2, 602)], vec![(1, 601), (1, 603)], vec![(1, 601), (1, 603), (1, 604), (1, 605)]];
+    // the unit message: add_child registers its children for it
+    for tree in [vec![root, n(1, 0, Reg::Add, false), n(2, 0, Reg::Ty(1), false)], vec![root, n(1, 0, Reg::AddTy(2), false), n(2, 0, Reg::AddTwice, false)]] {
+        for cause in [Cause::StopClient, Cause::LastDrop] {
+            for bc in [vec![(0u8, 606u32)], vec![(0, 606), (1, 601), (0, 607)]] {
+                for &mb in &[Mailbox::U, Mailbox::B(1)] {
+                    v.push(Case {
+                        desc: format!("children [unit broadcasts] tree={} cause={:?} bcasts={:?} mailbox={}", tree_name(&tree), cause, bc, mb.name()),
+                        exec: ExecCfg { horizon: 30, ..ExecCfg::default() },
+                        bound: Some(if tier == Tier::Quick { 4 } else { 7 }),
+                        scene: Box::new(S { nodes: tree.clone(), cause, bcasts: bc.clone(), mailbox: mb, pid: "C16", restart_root: false, slow_stop: None, child_timers: false, late_registration: false }),
+                    });
+                }
+            }
+        }
+    }
     let mbs: &[Mailbox] = if tier == Tier::Quick { &[Mailbox::U, Mailbox::B(1)] } else { &[Mailbox::U, Mailbox::B(0), Mailbox::B(1)] };
     for tree in &trees {
         for cause in causes(tier) {
